@@ -149,6 +149,20 @@ impl MockSpi {
         l.big_row = usize::MAX;
         MockSpi
     }
+    /// concrete device for native replays of generated harnesses (no `kani::any()`): every byte
+    /// the chip answers is `fill`
+    pub(crate) fn concrete(fill: u8) -> Self {
+        let l = spi();
+        l.n = 0;
+        l.script = [[fill; MAXRB]; MAXT];
+        l.fail_at = usize::MAX;
+        l.probe = (fill as usize) % 200;
+        l.big_j = 0;
+        l.big_v = fill;
+        l.big_len = usize::MAX;
+        l.big_row = usize::MAX;
+        MockSpi
+    }
     /// as `new`, failing at an arbitrary transaction index
     pub(crate) fn failing() -> Self {
         let s = Self::new();
